@@ -139,8 +139,11 @@ def _eval_order(e):
     """The nodes of an expression in the order their evaluation completes (operands before the node), for the plain node kinds
     whose operands are all evaluated, left to right; _NoOrder for anything evaluated conditionally or later (and / or, a
     conditional expression, a lambda, a comprehension)."""
-    if isinstance(e, (ast.BoolOp, ast.IfExp, ast.Lambda, ast.ListComp, ast.SetComp, ast.DictComp, ast.GeneratorExp, ast.NamedExpr, ast.Await, ast.Yield,
-                      ast.YieldFrom, ast.JoinedStr)):
+    if isinstance(e, (ast.ListComp, ast.SetComp, ast.DictComp, ast.GeneratorExp)):
+        # the outermost iterable is evaluated where the comprehension stands; everything else later, per element
+        yield from _eval_order(e.generators[0].iter)
+        raise _NoOrder()
+    if isinstance(e, (ast.BoolOp, ast.IfExp, ast.Lambda, ast.NamedExpr, ast.Await, ast.Yield, ast.YieldFrom, ast.JoinedStr)):
         raise _NoOrder()
     if isinstance(e, ast.Dict):
         for k, v in zip(e.keys, e.values):
@@ -381,6 +384,23 @@ class _ExprNF(ast.NodeTransformer):
             if classes and all((isinstance(c, ast.Name) and c.id not in ("object", "NoneType")) or
                                (isinstance(c, ast.Attribute) and c.attr not in ("NoneType",)) for c in classes):
                 return ast.copy_location(ast.Constant(value=False), n)
+        # E32: next(x for x in (a, b, c) if x is not None [, d]) is the first of a, b, c that is not None (the last one standing for
+        # "else": a sequence that is exhausted raises StopIteration, which the analysed copy reads as that last value)
+        if isinstance(n.func, ast.Name) and n.func.id == "next" and 1 <= len(n.args) <= 2 and not n.keywords and "E32" not in _SKIP \
+                and isinstance(n.args[0], ast.GeneratorExp) and len(n.args[0].generators) == 1:
+            g = n.args[0].generators[0]
+            t = g.ifs[0] if len(g.ifs) == 1 else None
+            if isinstance(g.target, ast.Name) and isinstance(n.args[0].elt, ast.Name) and n.args[0].elt.id == g.target.id and isinstance(g.iter, ast.Tuple) \
+                    and g.iter.elts and all(_pure(e) for e in g.iter.elts) and isinstance(t, ast.Compare) and len(t.ops) == 1 \
+                    and isinstance(t.ops[0], ast.IsNot) and isinstance(t.left, ast.Name) and t.left.id == g.target.id \
+                    and isinstance(t.comparators[0], ast.Constant) and t.comparators[0].value is None:
+                import copy as _copy
+                els = list(g.iter.elts)
+                out = _copy.deepcopy(n.args[1]) if len(n.args) == 2 else _copy.deepcopy(els.pop())
+                for e in reversed(els):
+                    test = ast.Compare(left=_copy.deepcopy(e), ops=[ast.IsNot()], comparators=[ast.Constant(value=None)])
+                    out = ast.IfExp(test=test, body=_copy.deepcopy(e), orelse=out)
+                return ast.fix_missing_locations(ast.copy_location(out, n))
         if isinstance(n.func, ast.Name) and not n.args and not n.keywords:
             if n.func.id == "dict":
                 return ast.copy_location(ast.Dict(keys=[], values=[]), n)
@@ -1047,6 +1067,122 @@ def _display_then_update(fn):
     ast.fix_missing_locations(fn)
 
 
+def _counted_while(fn):
+    """E31: a counted `while`            i = 0                          for i in range(0, N):
+                                          while i < N:          ==>         BODY
+                                              BODY; i += 1
+    N a pure expression (`len(xs)` of a name included) that BODY cannot change: the names in N are neither re-bound in BODY nor
+    receivers / arguments of a call there; BODY has no `continue`, does not bind i; i is not read after the loop."""
+    if "E31" in _SKIP:
+        return
+    for n in ast.walk(fn):
+        for b in _blocks(n):
+            i = 0
+            while i + 1 < len(b):
+                a, w = b[i], b[i + 1]
+                i += 1
+                if not (isinstance(a, ast.Assign) and len(a.targets) == 1 and isinstance(a.targets[0], ast.Name) and isinstance(a.value, ast.Constant)
+                        and type(a.value.value) is int and isinstance(w, ast.While) and not w.orelse and w.body):
+                    continue
+                v = a.targets[0].id
+                t = w.test
+                if not (isinstance(t, ast.Compare) and len(t.ops) == 1 and isinstance(t.ops[0], ast.Lt) and isinstance(t.left, ast.Name) and t.left.id == v):
+                    continue
+                bound = t.comparators[0]
+                lenof = isinstance(bound, ast.Call) and isinstance(bound.func, ast.Name) and bound.func.id == "len" and len(bound.args) == 1 \
+                    and not bound.keywords and isinstance(bound.args[0], ast.Name)
+                if not (_pure(bound) or lenof):
+                    continue
+                last = w.body[-1]
+                if not (isinstance(last, ast.AugAssign) and isinstance(last.op, ast.Add) and isinstance(last.target, ast.Name) and last.target.id == v
+                        and isinstance(last.value, ast.Constant) and last.value.value == 1 and type(last.value.value) is int):
+                    continue
+                body = w.body[:-1]
+                if not body:
+                    continue
+                inner = [x for st_ in body for x in ast.walk(st_)]
+                if any(isinstance(x, (ast.Continue, ast.Lambda, ast.FunctionDef, ast.AsyncFunctionDef)) for x in inner):
+                    continue
+                if any(isinstance(x, ast.Name) and x.id == v and isinstance(x.ctx, (ast.Store, ast.Del)) for x in inner):
+                    continue
+                names = {x.id for x in ast.walk(bound) if isinstance(x, ast.Name)} - {"len"}
+                touched = False
+                for x in inner:
+                    if isinstance(x, ast.Name) and x.id in names and isinstance(x.ctx, (ast.Store, ast.Del)):
+                        touched = True
+                    if isinstance(x, ast.Call):
+                        recv = x.func.value if isinstance(x.func, ast.Attribute) else None
+                        for y in ([recv] if recv is not None else []) + list(x.args) + [k.value for k in x.keywords]:
+                            if any(isinstance(z, ast.Name) and z.id in names for z in ast.walk(y)):
+                                touched = True
+                    if isinstance(x, (ast.Assign, ast.AugAssign, ast.Delete)):
+                        for tg in (x.targets if isinstance(x, (ast.Assign, ast.Delete)) else [x.target]):
+                            if isinstance(tg, (ast.Subscript, ast.Attribute)) and any(isinstance(z, ast.Name) and z.id in names for z in ast.walk(tg.value)):
+                                touched = True
+                if touched:
+                    continue
+                # i is not looked at after the loop (it would be N there, not N - 1)
+                later = [x for st_ in b[b.index(w) + 1:] for x in ast.walk(st_) if isinstance(x, ast.Name) and x.id == v]
+                total = [x for x in ast.walk(fn) if isinstance(x, ast.Name) and x.id == v]
+                inside = [x for x in ast.walk(w) if isinstance(x, ast.Name) and x.id == v]
+                if later or len(total) != len(inside) + 1:
+                    continue
+                rng = ast.Call(func=ast.Name(id="range", ctx=ast.Load()), args=[a.value, bound], keywords=[])
+                loop = ast.For(target=ast.Name(id=v, ctx=ast.Store()), iter=rng, body=body, orelse=[])
+                ast.copy_location(loop, w)
+                ast.fix_missing_locations(loop)
+                k = b.index(w)
+                b[k - 1:k + 1] = [loop]
+                i = max(k - 1, 0)
+    ast.fix_missing_locations(fn)
+
+
+_E32_COUNTER = [0]
+
+
+def _first_non_none(fn):
+    """E32 (statement level): `v = next(x for x in (a, f(), c) if x is not None)`: the tuple is built first (every element evaluated,
+    in order), then the first element that is not None is taken.  Elements that are not pure are given temporaries."""
+    if "E32" in _SKIP:
+        return
+    import copy as _copy
+    for n in ast.walk(fn):
+        for b in _blocks(n):
+            out = []
+            for s_ in b:
+                c = s_.value if isinstance(s_, (ast.Assign, ast.Return)) else None
+                ok = isinstance(c, ast.Call) and isinstance(c.func, ast.Name) and c.func.id == "next" and 1 <= len(c.args) <= 2 and not c.keywords \
+                    and isinstance(c.args[0], ast.GeneratorExp) and len(c.args[0].generators) == 1
+                if ok:
+                    g = c.args[0].generators[0]
+                    t = g.ifs[0] if len(g.ifs) == 1 else None
+                    ok = isinstance(g.target, ast.Name) and isinstance(c.args[0].elt, ast.Name) and c.args[0].elt.id == g.target.id \
+                        and isinstance(g.iter, ast.Tuple) and g.iter.elts and not any(isinstance(e, ast.Starred) for e in g.iter.elts) \
+                        and isinstance(t, ast.Compare) and len(t.ops) == 1 and isinstance(t.ops[0], ast.IsNot) and isinstance(t.left, ast.Name) \
+                        and t.left.id == g.target.id and isinstance(t.comparators[0], ast.Constant) and t.comparators[0].value is None \
+                        and (len(c.args) == 1 or _pure(c.args[1]))
+                if not ok:
+                    out.append(s_)
+                    continue
+                els = []
+                for e in g.iter.elts:
+                    if _pure(e):
+                        els.append(e)
+                    else:
+                        _E32_COUNTER[0] += 1
+                        nm = "cand__e%d" % _E32_COUNTER[0]
+                        out.append(ast.copy_location(ast.Assign(targets=[ast.Name(id=nm, ctx=ast.Store())], value=e), s_))
+                        els.append(ast.Name(id=nm, ctx=ast.Load()))
+                res = _copy.deepcopy(c.args[1]) if len(c.args) == 2 else _copy.deepcopy(els.pop())
+                for e in reversed(els):
+                    test = ast.Compare(left=_copy.deepcopy(e), ops=[ast.IsNot()], comparators=[ast.Constant(value=None)])
+                    res = ast.IfExp(test=test, body=_copy.deepcopy(e), orelse=res)
+                s_.value = ast.copy_location(res, c)
+                out.append(s_)
+            b[:] = out
+    ast.fix_missing_locations(fn)
+
+
 def _handler_dispatch(fn):
     """E26: a catch-all handler that dispatches on the class of what it caught is the list of typed handlers"""
     if "E26" in _SKIP:
@@ -1062,6 +1198,7 @@ def _handler_dispatch(fn):
 
 
 def _canon_function(fn):
+    _counted_while(fn)
     _display_then_update(fn)
     _match_statements(fn)
     _suppress_blocks(fn)
@@ -1111,6 +1248,7 @@ def _canon_function(fn):
             n.body, n.orelse = n.orelse, n.body
     _ExprNF().visit(fn)
     _split_update_displays(fn)
+    _first_non_none(fn)
     _thread_preset_flag(fn)
     _handler_dispatch(fn)
 
